@@ -2,7 +2,8 @@
    C10, C13, C15. *)
 From Coq Require Import ZArith List Bool String Lia ZifyBool.
 From UDS Require Import Lib.Bytes Lib.ErrM Lib.PyOps Lib.Sweep Spec.Timing Model.Message Model.Client
-  Model.Services Model.History Proofs.C17_lemmas Proofs.C05_lemmas.
+  Model.Services Model.Svc_Simple Model.Svc_Memory Model.Svc_Did Model.Svc_File Model.Svc_Dtc Model.History
+  Proofs.C17_lemmas Proofs.C05_lemmas.
 Import ListNotations.
 Open Scope Z_scope.
 Open Scope list_scope.
@@ -319,7 +320,7 @@ Definition with_switches (cfg : config) (a b c : bool) : config :=
   {| ex_neg := a; ex_inv := b; ex_unx := c; tol_pad := tol_pad cfg; ign_zero := ign_zero cfg;
      use_srv := use_srv cfg; std := std cfg; req_to := req_to cfg; p2 := p2 cfg; p2s := p2s cfg;
      has_cb := has_cb cfg; srv_addr := srv_addr cfg; srv_size := srv_size cfg; snap_did := snap_did cfg;
-     ext_size := ext_size cfg; algo := algo cfg; algo_prm := algo_prm cfg |}.
+     ext_size := ext_size cfg; algo := algo cfg; algo_prm := algo_prm cfg; dids := dids cfg; ios := ios cfg |}.
 
 Lemma send_request_switches cfg a b c st r to now s :
   send_request (with_switches cfg a b c) st r to now s = send_request cfg st r to now s.
@@ -340,14 +341,15 @@ Proof.
   destruct res as [[r|]|e r]; try reflexivity. rewrite Hi. destruct (interp' r); [reflexivity|]. rewrite Hp. reflexivity.
 Qed.
 
+Ltac head_of t := match t with ?f _ => head_of f | _ => t end.
+Ltac unfold_lhs_head := match goal with |- ?L = _ => let h := head_of L in unfold h end.
+
 Lemma run_inner_switches cfg a b c st call now s :
   run_inner (with_switches cfg a b c) st call now s = run_inner cfg st call now s.
 Proof.
-  destruct call; cbn [run_inner].
+  destruct call; cbn [run_inner];
+    try solve [unfold_lhs_head; apply single_request_switches; reflexivity].
   - unfold raw_request. destruct (mk_request _ _ _ _); [reflexivity|]. rewrite send_request_switches. reflexivity.
-  - unfold change_session. apply single_request_switches; reflexivity.
-  - unfold request_seed. apply single_request_switches; reflexivity.
-  - unfold send_key. apply single_request_switches; reflexivity.
   - unfold unlock_security_access. cbn [algo with_switches].
     destruct (algo cfg <=? 0); [reflexivity|].
     unfold request_seed, send_key. rewrite (single_request_switches cfg a b c st _ _ (sa_interpret false level) _ no_post) by reflexivity.
@@ -358,8 +360,10 @@ Proof.
     unfold algo_run. cbn [algo algo_prm with_switches].
     destruct (if algo cfg =? 1 then _ else _) as [key e].
     rewrite (single_request_switches cfg a b c st1 _ _ (sa_interpret true level) _ no_post) by reflexivity. reflexivity.
-  - unfold tester_present. apply single_request_switches; reflexivity.
-  - unfold ecu_reset. apply single_request_switches; reflexivity.
+  - unfold communication_control. destruct (ct_normalize a0); [reflexivity|].
+    apply single_request_switches; reflexivity.
+  - unfold read_data_by_identifier_first. destruct (iterM (fun d => validate_int d 0 65535) l); [reflexivity|].
+    erewrite single_request_switches; [reflexivity|reflexivity|reflexivity].
 Qed.
 
 (* ---- single_request: the client state changes only through `post` on success ------------------- *)
